@@ -59,6 +59,7 @@ type WCase struct {
 	FailAt    int      `json:"failat"` // the FailEpoch-th destination fails at its FailAt-th call (0 = never)
 	FailEp    int      `json:"failep"`
 	Partial   bool     `json:"partial"`   // the failing call accepts half of its bytes
+	ErrKind   string   `json:"errkind"`   // what the destination's error looks like (errKinds)
 	Shadow    []Op     `json:"shadow"`    // a second, fresh Writer of the same setting runs these on the last epoch's data
 	Cmp       string   `json:"cmp"`       // "C09" | "C12": compare the bytes of the two Writers
 	Arch      int      `json:"arch"`      // acceleration level this case is meant to run at (filled by the driver)
@@ -206,7 +207,7 @@ func runWriterOps(c *WCase, ops []Op, startEpoch int, failing bool, emit func(WE
 	newSink := func() *Sink {
 		s := &Sink{}
 		if failing && c.FailAt > 0 && epoch == c.FailEp {
-			s.FailAt, s.Partial = c.FailAt, c.Partial
+			s.FailAt, s.Partial, s.ErrKind = c.FailAt, c.Partial, c.ErrKind
 		}
 		return s
 	}
